@@ -785,22 +785,9 @@ def add_document_cases(secs, spec, run, stats):
         stats['float_rounding_skipped'] += 1
 
     # attachments (document level: <link rel=attachment>, write_pdf(attachments=…); link level: <a rel=attachment>)
-    from harness import c18_attach as A
     if six_decimals(coords):
         base = base_url()
-        head_links = [[None if el['href'] is None else esc(urllib.parse.urljoin(base, el['href'])),
-                       None if el['title'] is None else esc(el['title'])] for el in spec['attach_head']]
-        urls = {urllib.parse.urljoin(base, el['href']) for el in spec['attach_head'] if el['href'] is not None}
-        urls |= {t for p in document.pages for k, t, _, _ in p.links if k == 'attachment'}
-        table = {u: fetch_model(u) for u in sorted(urls)}
-        option_atts = [{'size': len(a['content'].encode()), 'name': a['name'], 'urlBase': None,
-                        'description': a['description']} for a in spec['attach_option']]
-        line = sx.line('docatt', A.guesses_for(list(table.values()) + option_atts),
-                       [[esc(u), A.att_wire(a)] for u, a in table.items()], head_links,
-                       [A.att_wire(a) for a in option_atts],
-                       [[scale, G.frac(p.height), [[esc(t)] + [G.frac(v) for v in rect]
-                                                   for k, t, rect, _ in p.links if k == 'attachment']]
-                        for p in document.pages])
+        line, table = docatt_line(spec, document.pages, scale, True)
         n_link = sum(1 for p in document.pages for l in p.links if l[0] == 'attachment')
         doc_keys = [expected_attachment_name(None, u).encode() for u, a in
                     ((urllib.parse.urljoin(base, el['href']), None) for el in spec['attach_head'] if el['href'] is not None)
@@ -853,6 +840,27 @@ def add_document_cases(secs, spec, run, stats):
                              ('same-path-other-query', any((l['href'] or '').startswith('?') for l in links))) if c])
 
 
+def docatt_line(spec, pages, scale, with_options):
+    """The `docatt` line for a PDF written from `pages`: the <link rel=attachment> elements of the document, the
+    `attachments` option (or none) and the attachment links of those pages."""
+    from harness import c18_attach as A
+    base = base_url()
+    head_links = [[None if el['href'] is None else esc(urllib.parse.urljoin(base, el['href'])),
+                   None if el['title'] is None else esc(el['title'])] for el in spec['attach_head']]
+    urls = {urllib.parse.urljoin(base, el['href']) for el in spec['attach_head'] if el['href'] is not None}
+    urls |= {t for p in pages for k, t, _, _ in p.links if k == 'attachment'}
+    table = {u: fetch_model(u) for u in sorted(urls)}
+    option_atts = [{'size': len(a['content'].encode()), 'name': a['name'], 'urlBase': None,
+                    'description': a['description']} for a in (spec['attach_option'] if with_options else [])]
+    line = sx.line('docatt', A.guesses_for(list(table.values()) + option_atts),
+                   [[esc(u), A.att_wire(a)] for u, a in table.items()], head_links,
+                   [A.att_wire(a) for a in option_atts],
+                   [[scale, G.frac(p.height), [[esc(t)] + [G.frac(v) for v in rect]
+                                               for k, t, rect, _ in p.links if k == 'attachment']]
+                    for p in pages])
+    return line, table
+
+
 def gen_subset(rng, n_pages):
     """Indices of the pages given to Document.copy: some pages dropped, order reversed, a page given twice."""
     k = rng.random()
@@ -874,18 +882,12 @@ def subset_pdf(document, indices, zoom):
 
 def add_subset_cases(secs, spec, document, indices, scale, meta, stats):
     meta = dict(meta, subset=indices)
-    # the document has been written once: its metadata attachments (<link rel=attachment href>) are spent
-    head_links = [[None if el['href'] is None else esc(urllib.parse.urljoin(base_url(), el['href'])),
-                   None if el['title'] is None else esc(el['title'])] for el in spec['attach_head']]
+    n_meta = sum(1 for el in spec['attach_head'] if el['href'] is not None)
     try:
         pages, pdf = subset_pdf(document, indices, spec['zoom'])
-        outcome = 'ok'
-    except Exception as exc:  # noqa: BLE001
-        outcome = G.err_outcome(exc)
-    secs['subset'].add(sx.line('rewrite', head_links), outcome, meta=meta,
-                       nontrivial=any(h[0] is not None for h in head_links),
-                       tags=['second-write', 'second-write-' + ('ok' if outcome == 'ok' else 'error')])
-    if outcome != 'ok':
+    except Exception as exc:  # noqa: BLE001 - a document must be writable again: the model expects the files once more
+        line, _ = docatt_line(spec, [document.pages[i] for i in indices], scale, False)
+        secs['subset'].add(line, G.err_outcome(exc), meta=meta, nontrivial=True, tags=['second-write-error'])
         return
     coords = []
     for p in pages:
@@ -918,6 +920,11 @@ def add_subset_cases(secs, spec, document, indices, scale, meta, stats):
     secs['subset'].add(sx.line('pdfoutl', scale, numbers[0] if numbers else 0, pdf.page_numbers, pages_wire),
                        pdf.outline_wire(), meta=meta, nontrivial=len(set(indices)) < len(document.pages),
                        tags=tags + ['outlines'])
+    # the <link rel=attachment> files are embedded again (a0bb005: Attachment.source opens its source for each write),
+    # the attachment links of the selected pages get their annotations and files
+    line, table = docatt_line(spec, pages, scale, False)
+    secs['subset'].add(line, pdf.attachments_wire(), meta=meta, nontrivial=bool(n_meta),
+                       tags=tags + ['attachments'] + (['second-write-of-attachments'] if n_meta else []))
 
 
 def oracle_subset(spec, indices):
@@ -932,12 +939,22 @@ def oracle_subset(spec, indices):
     try:
         pages, pdf = subset_pdf(document, indices, spec['zoom'])
     except Exception as exc:  # noqa: BLE001
-        spent = any(el['href'] is not None for el in spec.get('attach_head') or ())
-        return (f'writing the pages {indices} after the whole document raised {type(exc).__name__}: {exc}',
-                'attachment-second-write-crash' if spent and isinstance(exc, AttributeError)
-                and '_GeneratorContextManager' in str(exc) else None)
+        return f'writing the pages {indices} after the whole document raised {type(exc).__name__}: {exc}', None
     what = _oracle_subset(spec, indices, document, pages, pdf)
-    return (what, None) if what else None
+    if what:
+        return what, None
+    # written a second time, the <link rel=attachment> files are all there again, unchanged
+    import urllib.request
+    want = []
+    for el in spec.get('attach_head') or ():
+        if el['href'] is not None and el['href'].startswith('data:'):
+            with urllib.request.urlopen(el['href']) as response:
+                want.append(response.read())
+    got = pdf.embedded_contents()
+    if sorted(got) != sorted(want):
+        return (f'the second PDF (pages {indices}) embeds {[c[:20] for c in got]}; the <link rel=attachment> files of '
+                f'the document are {[c[:20] for c in want]}'), None
+    return None
 
 
 def _oracle_subset(spec, indices, document, pages, pdf):
@@ -1022,6 +1039,9 @@ def regression_specs():
         dict(base, blocks=[para(0, None)], attach_option=[option('1', 'report 2'), option('2', 'report')]),
         dict(base, blocks=[para(0, None)], attach_option=[option('1', 'aZ.txt'), option('2', 'a(1).txt'), option('3', 'a#b'),
                                                           option('4', 'a'), option('5', 'a\\b'), option('6', 'a)')]),
+        # attachment-second-write-crash, fixed by a0bb005: <link rel=attachment>, two pages (the copy is a second write)
+        dict(base, blocks=[para(0, None), dict(para(1, 'b'), break_before=True)],
+             attach_head=[{'href': 'data:text/plain,hello', 'title': None}, {'href': 'missing-doc-file.bin', 'title': 'x'}]),
         # anchor-double-transform, fixed by a37277b: <h1 id=a style="transform: translate(…)">
         dict(base, blocks=[heading(0, 'a', 'translate(8px, 4px)'), para(1, 'b')]),
     ]
@@ -1588,15 +1608,3 @@ def replay_anchor_id_shadowed():
     docs.quiet()
     document = docs.render(_BASE + '<div><a id="x" name="y">target</a> <a href="#x">link</a></div>')
     return 'x' not in document.pages[0].anchors
-
-
-def replay_attachment_second_write():
-    """A document with <link rel=attachment href=…> must be writable twice."""
-    docs.quiet()
-    document = docs.render(_BASE + '<link rel="attachment" href="data:text/plain,hi"><div>x</div>')
-    document.write_pdf()
-    try:
-        document.write_pdf()
-    except AttributeError:
-        return True
-    return False
